@@ -320,6 +320,53 @@ Definition sweep_success : bool :=
 Lemma sweep_success_ok : sweep_success = true.
 Proof. vm_compute. reflexivity. Qed.
 
+(* NON-VACUITY of the failure theorems below (their hypothesis is "merge_fast_ptr ... = (w', FThrow h')"): FThrow is reachable.
+   On every geometry of the success sweep (tree 1 = a single leaf), in both directions,
+   - a copy-only element (CPY) whose first copy fails (the separator relocation) makes merge_fast_ptr return FThrow, and
+   - whenever the first climbing step needs a new node (tree 2 is a single leaf, or the lowest spine node is full) a failing
+     first allocation makes it return FThrow (NTM elements),
+   and, concretely on these inputs, both trees then pass the structural validator and have their original contents.
+   (FBroken -- fuel exhaustion or a malformed heap -- is a distinct result, so FThrow is not a totalisation artefact.) *)
+Definition throw_case (c : cat) (w : world) (swap : bool) (fulls : list bool) : bool :=
+  let '(h2, root2, start2) := mk_spine swap fulls in
+  let '(h, root1, leaf1) := mk_tree1 false swap h2 in
+  match merge_fast_ptr c w h root1 root2 start2 leaf1 swap maxcap_s 12 [50; 51; 52; 53; 54; 55]%nat with
+  | (w', FThrow h') =>
+      wfb 12 maxcap_s h' (Ptr root1) None && wfb 12 maxcap_s h' (Ptr root2) None &&
+      list_eqb (inorder 12 h' (Ptr root1)) (inorder 12 h (Ptr root1)) &&
+      list_eqb (inorder 12 h' (Ptr root2)) (inorder 12 h (Ptr root2)) &&
+      negb (list_eqb (map (fun e => match e with EFail _ => 1%Z | _ => 0%Z end) (tr w')) (map (fun _ => 0%Z) (tr w')))
+  | _ => false
+  end.
+
+Definition needs_node_first (fulls : list bool) : bool := match fulls with [] => true | f :: _ => f end.
+
+Definition sweep_failure : bool :=
+  forallb (fun swap => forallb (fun d => forallb (fun fulls =>
+      throw_case CPY (W [] [] [true] []) swap fulls &&
+      (if needs_node_first fulls then throw_case NTM (W [] [true] [] []) swap fulls else true))
+    (all_bools d)) [0; 1; 2; 3]%nat) [true; false].
+
+Lemma sweep_failure_ok : sweep_failure = true.
+Proof. vm_compute. reflexivity. Qed.
+
+(* the same fact as a plain existence statement, for the reader who wants the hypothesis of the failure theorems inhabited *)
+Theorem merge_fast_fthrow_reachable :
+  (exists h root1 root2 start2 leaf1 swap maxcap fuel fresh w' h',
+     merge_fast_ptr CPY (W [] [] [true] []) h root1 root2 start2 leaf1 swap maxcap fuel fresh = (w', FThrow h')) /\
+  (exists h root1 root2 start2 leaf1 swap maxcap fuel fresh w' h',
+     merge_fast_ptr NTM (W [] [true] [] []) h root1 root2 start2 leaf1 swap maxcap fuel fresh = (w', FThrow h')).
+Proof.
+  assert (R : forall c w swap fulls, throw_case c w swap fulls = true ->
+            exists h root1 root2 start2 leaf1 swap maxcap fuel fresh w' h',
+              merge_fast_ptr c w h root1 root2 start2 leaf1 swap maxcap fuel fresh = (w', FThrow h')).
+  { intros c w swap fulls. unfold throw_case.
+    destruct (mk_spine swap fulls) as [[h2 root2] start2]. destruct (mk_tree1 false swap h2) as [[h root1] leaf1].
+    destruct (merge_fast_ptr c w h root1 root2 start2 leaf1 swap maxcap_s 12 [50; 51; 52; 53; 54; 55]%nat) as [w' r] eqn:M.
+    destruct r; try discriminate. intros _. do 11 eexists. exact M. }
+  split; [apply (R CPY _ false [false]) | apply (R NTM _ false [])]; vm_compute; reflexivity.
+Qed.
+
 Lemma forallb_ext' {A} (f g : A -> bool) l : (forall x, f x = g x) -> forallb f l = forallb g l.
 Proof. intros E. induction l as [|x l IH]; simpl; [reflexivity|]. rewrite E, IH. reflexivity. Qed.
 
